@@ -33,6 +33,10 @@ func init() {
 			{ID: "R13k", Floor: 1, Doc: "no new mutable package-level state in the library: a package-level variable the pinned tree does not have is not written after initialisation (directly, or through a repository function given its address) — an inspection reports what is in the archive, not what an earlier call or another reader left in a memo", Run: ruleR13k},
 			{ID: "R13l", Floor: 1, Doc: "what Inspect accepts depends on parser options only: it reads no index or writer option (MaxIndexCidSize, StoreIdentityCIDs, IndexCodec, paddings, ...), so it succeeds exactly where a scan with the same reader options does", Run: ruleR13l},
 			{ID: "R13m", Floor: 1, Doc: "Inspect stops reading at the zero-length section it treats as the end: from the ZeroLengthSectionAsEOF outcome nothing reads the payload reader any more", Run: ruleR13m},
+			{ID: "R13n", Floor: 1, Doc: "a root is present when a section carries that CID: Inspect compares whole CIDs, never multihashes", Run: ruleR13n},
+			{ID: "R13o", Floor: 1, Doc: "the printed report lists every code that was counted: Counts.String ranges over the map it prints, not over an external table of known codes", Run: ruleR13o},
+			{ID: "R13p", Floor: 1, Doc: "a full inspection accepts valid CIDv0 sections: the rebuilt CID has the section's CID version (= R02s)", Run: ruleR02s},
+			{ID: "R13q", Floor: 1, Doc: "the payload Inspect walks is the one the header bounds: the three range checks of Header.ReadFrom, DataSize as a positive int64 (= R09e)", Run: ruleR09e},
 		},
 	})
 }
